@@ -40,11 +40,12 @@ var specs = []CheckSpec{
 		ID: "C14", Pkg: "txtar",
 		Harnesses: []HarnessSpec{
 			{Fn: "VerifC14NeedsQuote", Quick: map[string]int{"N": 9}, Thorough: map[string]int{"N": 12}, Witness: []string{"needs-quote", "body-changes-parse"}, Native: true},
+			{Fn: "VerifC14NeedsQuoteLines", Quick: map[string]int{"LINES": 3}, Thorough: map[string]int{"LINES": 4}, Witness: []string{"marker-like-line", "body-changes-parse"}, Native: true},
 			{Fn: "VerifC14Quote", Quick: map[string]int{"N": 5}, Thorough: map[string]int{"N": 8}, Witness: []string{"quoted", "quote-refused"}, Native: true},
 			{Fn: "VerifC14QuoteMarker", Quick: map[string]int{"N": 9}, Thorough: map[string]int{"N": 12}, Witness: []string{"quoted-a-marker"}, Native: true},
 		},
 		Bounds: map[string]string{
-			"quick":    "NeedsQuote: all bodies of <= 9 bytes; Quote/Unquote: all bodies of <= 5 bytes, and all newline-terminated ASCII bodies of <= 9 bytes that contain a marker line",
+			"quick":    "NeedsQuote: all bodies of <= 9 bytes, and bodies of <= 3 lines from line templates (ordinary line of <= 1 byte, marker-like line \"-- \" + <= 2 bytes, marker line with a 1-byte name; last line with or without newline); Quote/Unquote: all bodies of <= 5 bytes, and all newline-terminated ASCII bodies of <= 9 bytes that contain a marker line",
 			"thorough": "NeedsQuote: all bodies of <= 12 bytes; Quote/Unquote: <= 8 bytes; marker bodies <= 12 bytes",
 		},
 		Assumptions: commonAssumptions,
@@ -84,10 +85,11 @@ var specs = []CheckSpec{
 		Harnesses: []HarnessSpec{
 			{Fn: "VerifC18Slots", Quick: map[string]int{"PAIR": 1}, Thorough: map[string]int{"PAIR": 2}, Witness: []string{"bom", "several-imports"}, Native: true},
 			{Fn: "VerifC18Specs", Quick: map[string]int{"PL": 1}, Thorough: map[string]int{"PL": 2}, Witness: []string{"specs"}, Native: true},
+			{Fn: "VerifC18LongLines", Quick: map[string]int{"LENS": 4}, Thorough: map[string]int{"LENS": 4}, Witness: []string{"long-piece", "longer-than-a-read-buffer"}},
 			{Fn: "VerifC18Arbitrary", Quick: map[string]int{"N": 4}, Thorough: map[string]int{"N": 6}, Witness: []string{"ran", "syntax-error", "nul"}, Native: true},
 		},
 		Bounds: map[string]string{
-			"quick":    "valid files from 4 token skeletons (no import / single / group of two / single+group+empty group) x 5 declaration tails x optional BOM, with one separator slot at a time ranging over its full menu (blanks, semicolons, CRLF, // and /* */ comments with a symbolic body byte); all alias forms x raw/interpreted paths with <= 1 symbolic byte; arbitrary tails of <= 4 symbolic bytes after 5 prefixes, both reportSyntaxError values",
+			"quick":    "files with a line comment, block comment, blank run or newline run of 100 / 4095 / 4096 / 5000 / 9000 bytes before, between or after two imports (longer than any read buffer); valid files from 4 token skeletons (no import / single / group of two / single+group+empty group) x 5 declaration tails x optional BOM, with one separator slot at a time ranging over its full menu (blanks, semicolons, CRLF, // and /* */ comments with a symbolic body byte); all alias forms x raw/interpreted paths with <= 1 symbolic byte; arbitrary tails of <= 4 symbolic bytes after 5 prefixes, both reportSyntaxError values",
 			"thorough": "two separator slots vary simultaneously; paths with <= 2 symbolic bytes; arbitrary tails <= 6 bytes",
 		},
 		Assumptions: append([]string{"validity of generated files and the expected import list are cross-checked against go/parser (ImportsOnly) on every natively replayed path witness"}, commonAssumptions...),
@@ -129,7 +131,7 @@ var specs = []CheckSpec{
 		ID: "C12", Pkg: "cache", UsesVFS: true,
 		Harnesses: []HarnessSpec{
 			{Fn: "VerifC12FileFault", Quick: map[string]int{"L": 2}, Thorough: map[string]int{"L": 4}, Witness: []string{"crash", "fault", "fault-hit", "put-reported-error", "overwrite-same-content", "overwrite-different-content", "output-trimmed-index-kept", "after-getbytes-hit", "after-getbytes-miss", "after-getfile-hit"}},
-			{Fn: "VerifC12Reader", Quick: map[string]int{"L": 2}, Thorough: map[string]int{"L": 4}, Witness: []string{"reader-fails", "seek-fails", "second-pass-shorter", "second-pass-differs", "put-reported-error"}},
+			{Fn: "VerifC12Reader", Quick: map[string]int{"L": 2}, Thorough: map[string]int{"L": 4}, Witness: []string{"reader-fails", "seek-fails", "second-pass-shorter", "second-pass-differs", "put-reported-error", "reader-fault-and-halt"}},
 			{Fn: "VerifC12PreDamaged", Quick: map[string]int{"L": 2}, Thorough: map[string]int{"L": 4}, Witness: []string{"repaired-predamaged"}},
 		},
 		Bounds: map[string]string{
@@ -204,7 +206,7 @@ var specs = []CheckSpec{
 			{Fn: "VerifC01Exit", Pkg: "cmd/testscript", Quick: map[string]int{}, Thorough: map[string]int{}, Witness: []string{"some-script-failed", "no-script-failed", "two-scripts"}},
 		},
 		Bounds: map[string]string{
-			"quick":    "scripts of <= 2 lines over a menu of 25 line shapes (probe, ! probe, [c] probe, [!c] probe, [c] ! probe, two condition prefixes of either polarity with optional !, stop, ! stop, skip, unknown command, [c] alone, ! alone, # phase, blank, bad condition, exists / ! exists / exists-missing, cmp / ! cmp on two archive files with symbolic contents, mkdir, chmod with two paths, grep / ! grep / grep -count=N on a file with 0-3 matching lines); probe outcomes, the two condition values, file contents and ContinueOnError symbolic; run through the real RunT with a synchronous recording T; background commands over a process model (shared with C04: the status of a background command decides the verdict at wait, wait <name> and skip); the standalone command's own T (cmd/testscript runT) over one or two scripts of <= 2 lines from {probe, skip, stop, unknown command}: failed run reported iff some script failed",
+			"quick":    "scripts of <= 2 lines over a menu of 26 line shapes (probe, ! probe, [c] probe, [!c] probe, [c] ! probe, two condition prefixes of either polarity with optional !, stop, ! stop, skip, unknown command, [c] alone, ! alone, # phase, blank, bad condition, exists / ! exists / exists-missing, exists and ! exists with two arguments (each present or absent), cmp / ! cmp on two archive files with symbolic contents, mkdir, chmod with two paths, grep / ! grep / grep -count=N on a file with 0-3 matching lines); probe outcomes, the two condition values, file contents and ContinueOnError symbolic; run through the real RunT with a synchronous recording T; background commands over a process model (shared with C04: the status of a background command decides the verdict at wait, wait <name> and skip); the standalone command's own T (cmd/testscript runT) over one or two scripts of <= 2 lines from {probe, skip, stop, unknown command}: failed run reported iff some script failed",
 			"thorough": "<= 3 lines",
 		},
 		Stubs: []string{"vfs model for os/file calls, time.Now/Since (concrete clock), regexp on concrete arguments (native), flag definitions, sync (sequential)", "T: synchronous recording implementation; FailNow/Skip unwind by panic (deferred functions run as with runtime.Goexit)"},
@@ -214,7 +216,7 @@ var specs = []CheckSpec{
 	{
 		ID: "C16", Pkg: "testscript", UsesVFS: true,
 		Harnesses: []HarnessSpec{
-			{Fn: "VerifC16Update", Quick: map[string]int{"G": 2, "A": 2, "C": 1}, Thorough: map[string]int{"G": 2, "A": 3, "C": 2}, Witness: []string{"update", "no-update", "quoted-update", "rerun", "actual-has-marker", "cmp-from-subdirectory", "duplicate-entry-name"}},
+			{Fn: "VerifC16Update", Quick: map[string]int{"G": 2, "A": 2, "C": 1}, Thorough: map[string]int{"G": 2, "A": 3, "C": 2}, Witness: []string{"update", "no-update", "quoted-update", "rerun", "actual-has-marker", "cmp-from-subdirectory", "duplicate-entry-name", "entry-name-with-variable"}},
 		},
 		Bounds: map[string]string{
 			"quick":    "script archive with two golden entries of <= 2 symbolic bytes (+newline, or empty), one actual text on stdout (<= 2 arbitrary bytes, or a text containing a marker line with a symbolic byte), one comparison line: cmp / ! cmp / cmpenv against entry 0, entry 1 or a file outside the archive; UpdateScripts symbolic; second run of the real code on the rewritten script",
